@@ -161,3 +161,67 @@ pub fn g2_of(p: &G2Projective) -> G2Affine {
     p.to_affine()
 }
 
+
+/// a reader that hands its input out a few bytes at a time (a file or socket, not a slice: nothing can be borrowed)
+pub struct Dribble<'a> { data: &'a [u8], pos: usize }
+impl<'a> Dribble<'a> { pub fn new(data: &'a [u8]) -> Self { Dribble { data, pos: 0 } } }
+impl<'a> std::io::Read for Dribble<'a> {
+    fn read(&mut self, buf: &mut [u8]) -> std::io::Result<usize> {
+        let n = buf.len().min(self.data.len() - self.pos).min(1 + self.pos % 7);
+        buf[..n].copy_from_slice(&self.data[self.pos..self.pos + n]);
+        self.pos += n;
+        Ok(n)
+    }
+}
+
+/// JSON text with every character inside a string literal written as a \uXXXX escape (still the same document;
+/// a deserializer cannot borrow such a string from the input)
+pub fn json_escape_all(js: &[u8]) -> Vec<u8> {
+    let text = String::from_utf8_lossy(js).to_string();
+    let mut out = String::new();
+    let mut in_str = false;
+    let mut chars = text.chars();
+    while let Some(c) = chars.next() {
+        if !in_str {
+            if c == '"' { in_str = true; }
+            out.push(c);
+        } else if c == '\\' {
+            out.push(c);
+            if let Some(d) = chars.next() { out.push(d); if d == 'u' { for _ in 0..4 { if let Some(h) = chars.next() { out.push(h); } } } }
+        } else if c == '"' {
+            in_str = false;
+            out.push(c);
+        } else {
+            let mut b = [0u16; 2];
+            for u in c.encode_utf16(&mut b) { out.push_str(&format!("\\u{:04x}", u)); }
+        }
+    }
+    out.into_bytes()
+}
+
+/// Write a value as JSON and read it back through every front-end of the format: the slice and string parsers,
+/// a reader (the way a file is read), an intermediate `serde_json::Value` (the value as one field of a larger document),
+/// pretty-printed text and fully escaped text.  All must give back the same value (compared by bincode bytes).
+pub fn json_roundtrip_all<T: serde::Serialize + DeserializeOwned>(x: &T) -> Result<Vec<u8>, String> {
+    let js = serde_json::to_vec(x).map_err(|e| format!("to JSON: {}", e))?;
+    let first: T = serde_json::from_slice(&js).map_err(|e| format!("from JSON (from_slice): {}", e))?;
+    let bytes = ser(&first);
+    let text = String::from_utf8(js.clone()).map_err(|e| format!("JSON text is not UTF-8: {}", e))?;
+    let pretty = serde_json::to_string_pretty(x).map_err(|e| format!("to pretty JSON: {}", e))?;
+    let escaped = json_escape_all(&js);
+    let others: Vec<(&str, Result<T, serde_json::Error>)> = vec![
+        ("from_str", serde_json::from_str(&text)),
+        ("from_reader", serde_json::from_reader(Dribble { data: &js, pos: 0 })),
+        ("from_value", serde_json::from_slice::<serde_json::Value>(&js).and_then(serde_json::from_value)),
+        ("to_value/from_value", serde_json::to_value(x).and_then(serde_json::from_value)),
+        ("pretty from_str", serde_json::from_str(&pretty)),
+        ("escaped from_slice", serde_json::from_slice(&escaped)),
+    ];
+    for (what, r) in others {
+        match r {
+            Ok(v) => if ser(&v) != bytes { return Err(format!("from JSON ({}) gives a different value than from_slice", what)); },
+            Err(e) => return Err(format!("from JSON ({}): {} (from_slice reads the same document)", what, e)),
+        }
+    }
+    Ok(bytes)
+}
